@@ -33,7 +33,7 @@ def execute(case):
     if e is not None:
         exc = exc or e
     return {"id": case["id"], "b": case["b"], "plain": case["plain"], "x": case["x"], "r": out, "names": NAMES,
-            "pre": pre, "fp": False, "exc": exc or ""}
+            "pre": pre, "fp": False, "sw": False, "exc": exc or ""}
 
 
 def describe(case):
@@ -52,7 +52,7 @@ def gen_cases(ctx, depth, fp=False, bases=ALLB):
                            out="gen_c04_%d.json" % len(ctx.tlc_cmds))
     sp = data["spellings"]
     sp.sort(key=lambda s: (s["b"], not s["plain"], len(s["x"]), s["x"]))
-    return [{"b": s["b"], "plain": s["plain"], "x": s["x"]} for s in sp]
+    return [{"b": s["b"], "plain": s["plain"], "x": s["x"], "sw": bool(s.get("sw", False))} for s in sp]
 
 
 def judge(ctx, modname, cases, trace_cfg=TRACE_CFG, trace_module="Trace_C04"):
